@@ -74,11 +74,16 @@ for d in sorted(glob.glob(os.path.join(ROOT, "seeded", "*"))):
     det = os.path.join(d, "detected.txt")
     fired = []
     if os.path.exists(det):
+        ran = None
         for l in open(det):
+            if l.startswith("# checks run:"):
+                ran = l.split(":", 1)[1].split()
+                continue
             p = l.split()
             if len(p) >= 2 and p[1] == "FIRED":
                 fired.append(p[0])
         m["detected_by"] = fired
+        m["checks_run_against_it"] = ran if ran else "all 20"
         m["detected_how"] = "tools/matrix.sh: every check's quick command against a scratch copy of /repo with patch.diff applied"
     json.dump(m, open(mp, "w"), indent=1)
     rows.append((name, m["property"], what, needs, m.get("detected_by", [])))
